@@ -626,6 +626,43 @@ Fixpoint close_tree (t : itree) (ok : itree) (err : val -> itree) : itree :=
 Definition gen_handlers : handlers :=
   mkH (fun e r => TThrew e r) (fun v r => TDone v r) (fun r => TDone VUndef r) (fun r => TDone VUndef r).
 
+(* for-of over an inner generator whose current activation unfolds to t; db = the meaning of the loop body *)
+Fixpoint forof_tree (x : nat) (db : env -> handlers -> (env -> itree) -> itree) (H : handlers) (k : env -> itree)
+         (t : itree) (r : env) {struct t} : itree :=
+  match t with
+  | TDone _ _ => k r
+  | TThrew e _ => kt H e r
+  | TYield v _ _ kin =>
+      db (upd x v r)
+         (mkH (fun e r' => close_tree (kin (BReturn VUndef)) (kt H e r') (fun _ => kt H e r'))
+              (fun v' r' => close_tree (kin (BReturn VUndef)) (kr H v' r') (fun e => kt H e r'))
+              (fun r' => close_tree (kin (BReturn VUndef)) (k r') (fun e => kt H e r'))
+              (fun r' => forof_tree x db H k (kin (BNext VUndef)) r'))
+         (fun r' => forof_tree x db H k (kin (BNext VUndef)) r')
+  | TYieldStar _ _ _ _ => kt H VTypeErr r
+  | TEmit ev t' => TEmit ev (forof_tree x db H k t' r)
+  | TReent c kk => TReent c (fun a' => forof_tree x db H k (kk a') r)
+  end.
+
+(* yield* whose delegate is an inner generator with current activation t (14.4.14, inlined) *)
+Fixpoint deleg_tree (wants : bool) (r : env) (H : handlers) (k : val -> itree) (retmode : bool) (t : itree)
+         {struct t} : itree :=
+  match t with
+  | TDone v _ => if retmode then kr H v r else k v
+  | TThrew e _ => kt H e r
+  | TYield v _ _ kin =>
+      TYield v wants r (fun i =>
+        match i with
+        | BStart => deleg_tree wants r H k false (kin (BNext VUndef))
+        | BNext x => deleg_tree wants r H k false (kin (BNext x))
+        | BThrow x | BIterFail x => deleg_tree wants r H k false (kin (BThrow x))
+        | BReturn x => deleg_tree wants r H k true (kin (BReturn x))
+        end)
+  | TYieldStar _ _ _ _ => kt H VTypeErr r
+  | TEmit ev t' => TEmit ev (deleg_tree wants r H k retmode t')
+  | TReent c kk => TReent c (fun a' => deleg_tree wants r H k retmode (kk a'))
+  end.
+
 Section Denote.
 (* [top] = the body of the top-level generator: its yield* is surfaced to the generator object (Part 1);
    bodies of inner generators are given their meaning directly, with yield* inlined per 14.4.14 *)
@@ -681,22 +718,7 @@ with dStar (top : bool) (wants : bool) (s : src) (r : env) (H : handlers) (k : v
         let g : tin -> itree := fun _ => dS false body (upd 0 a env0) gen_handlers (fun r' => TDone VUndef r') in
         if top then TYieldStar (inl (IGenStart g)) wants r (fun i => resume_in i k H r)
         else
-          (fix deleg (retmode : bool) (t : itree) : itree :=
-             match t with
-             | TDone v _ => if retmode then kr H v r else k v
-             | TThrew e _ => kt H e r
-             | TYield v _ _ kin =>
-                 TYield v wants r (fun i =>
-                   match i with
-                   | BStart => deleg false (kin (BNext VUndef))
-                   | BNext x => deleg false (kin (BNext x))
-                   | BThrow x | BIterFail x => deleg false (kin (BThrow x))
-                   | BReturn x => deleg true (kin (BReturn x))
-                   end)
-             | TYieldStar _ _ _ _ => kt H VTypeErr r
-             | TEmit ev t' => TEmit ev (deleg retmode t')
-             | TReent c kk => TReent c (fun a' => deleg retmode (kk a'))
-             end) false (g BStart))
+          deleg_tree wants r H k false (g BStart))
   end
 with dS (top : bool) (s : stmt) (r : env) (H : handlers) (k : env -> itree) {struct s} : itree :=
   match s with
@@ -774,21 +796,7 @@ with dS (top : bool) (s : stmt) (r : env) (H : handlers) (k : env -> itree) {str
       | SrcGen arg gbody =>
           dE top arg r H (fun a =>
             let g : tin -> itree := fun _ => dS false gbody (upd 0 a env0) gen_handlers (fun r' => TDone VUndef r') in
-            (fix forof (t : itree) (r : env) : itree :=
-               match t with
-               | TDone _ _ => k r
-               | TThrew e _ => kt H e r
-               | TYield v _ _ kin =>
-                   dS top body (upd x v r)
-                      (mkH (fun e r' => close_tree (kin (BReturn VUndef)) (kt H e r') (fun _ => kt H e r'))
-                           (fun v' r' => close_tree (kin (BReturn VUndef)) (kr H v' r') (fun e => kt H e r'))
-                           (fun r' => close_tree (kin (BReturn VUndef)) (k r') (fun e => kt H e r'))
-                           (fun r' => forof (kin (BNext VUndef)) r'))
-                      (fun r' => forof (kin (BNext VUndef)) r')
-               | TYieldStar _ _ _ _ => kt H VTypeErr r
-               | TEmit ev t' => TEmit ev (forof t' r)
-               | TReent c kk => TReent c (fun a' => forof (kk a') r)
-               end) (g BStart) r)
+            forof_tree x (fun r0 H0 k0 => dS top body r0 H0 k0) H k (g BStart) r)
       end
   end.
 End Denote.
@@ -920,6 +928,9 @@ Definition bop_apply (o : bop) (a b : val) : option val * val :=
 
 Inductive abrupt := AThrow (v : val) | AReturn (v : val) | ABreak | AContinue.
 
+(* how suspended data is resumed: after a plain yield (value wanted or not), or inside a yield* (forward to the delegate) *)
+Inductive rkind := RPlain (w : bool) | RStar.
+
 Inductive frame :=
 | FBinL (o : bop) (b : exp)          (* evaluating the left operand; b is still to be evaluated *)
 | FBinR (o : bop) (va : val)         (* left operand evaluated to va (a partially evaluated expression) *)
@@ -929,20 +940,48 @@ Inductive frame :=
 | FLoop (n m x : nat) (body : stmt)  (* counted loop: m iterations remain *)
 | FCatch (c : stmt)                  (* pending catch clause *)
 | FFinally (f : stmt)                (* pending finally block *)
-| FFinCompl (a : option abrupt).     (* a finally block is running; afterwards the saved completion continues *)
+| FFinCompl (a : option abrupt)      (* a finally block is running; afterwards the saved completion continues *)
+(* inner generators: a running inner generator occupies the frames ABOVE a boundary frame (its stack segment);
+   when it suspends, its segment is cut off and stored inside a frame of the generator below *)
+| FArgForOf (x : nat) (gbody body : stmt)      (* the argument of the inner generator of a for-of is being evaluated *)
+| FArgStar (wants : bool) (gbody : stmt)       (* ... of a yield* *)
+| FForOfB (x : nat) (body : stmt) (ro : env)   (* BOUNDARY: next() of a for-of runs the inner generator; ro = outer locals *)
+| FCloseB (a : abrupt) (ro : env)              (* BOUNDARY: IteratorClose runs return() of the inner generator *)
+| FStarB (retmode wants : bool) (ro : env)     (* BOUNDARY: yield* runs next/throw/return of the delegate *)
+| FForOfS (x : nat) (body : stmt) (rk : rkind) (ri : env) (Ki : list frame)   (* loop body runs; (rk, ri, Ki) = suspended inner generator *)
+| FStarS (wants : bool) (rk : rkind) (ri : env) (Ki : list frame).            (* suspended inside yield*; the suspended delegate *)
 
 Inductive control :=
-| CE (e : exp) | CS (s : stmt) | CVal (v : val) | CNorm | CAbr (a : abrupt) | CEmitThen (ev : val).
+| CE (e : exp) | CS (s : stmt) | CVal (v : val) | CNorm | CAbr (a : abrupt) | CEmitThen (ev : val)
+| CYielding (v : val) (w : bool) (rk : rkind)       (* a yield is looking for its consumer *)
+| CResume (rk : rkind) (i : tin).                   (* suspended data is being resumed with input i *)
 Definition config := (control * env * list frame)%type.
 
 Inductive mout :=
 | OTau (c : config) | OEmit (ev : val) (c : config)
-| OYield (v : val) (wants : bool) (r : env) (K : list frame)       (* SUSPENDED: (r, K) is all that is kept *)
+| OYield (v : val) (w : bool) (rk : rkind) (r : env) (K : list frame)   (* SUSPENDED: (rk, r, K) is all that is kept *)
 | OReent (c : cmd val) (k : callres val -> config)
-| OFinDone (v : val) (r : env) | OFinThrew (e : val) (r : env).
+| OFinDone (v : val) (r : env) | OFinThrew (e : val) (r : env)
+| OStuck.                                                              (* ill-formed configuration / outside the fragment *)
 
 Definition enc_callres (a : callres val) : val :=
   match a with CRes v d => VArr [VInt 90; v; b2v d] | CErr e => VArr [VInt 91; e] end.
+
+Definition is_boundary (f : frame) : bool :=
+  match f with FForOfB _ _ _ | FCloseB _ _ | FStarB _ _ _ => true | _ => false end.
+(* the segment of the running generator: the frames above the first boundary *)
+Fixpoint split_b (K : list frame) : option (list frame * frame * list frame) :=
+  match K with
+  | [] => None
+  | f :: K' =>
+      if is_boundary f then Some ([], f, K')
+      else match split_b K' with Some (a, b, c) => Some (f :: a, b, c) | None => None end
+  end.
+
+(* how IteratorClose of a for-of continues: the loop's own completion a, unless return() threw *)
+Definition close_ok (a : abrupt) : control := match a with ABreak => CNorm | _ => CAbr a end.
+Definition close_err (a : abrupt) (e : val) : control :=
+  match a with AThrow e0 => CAbr (AThrow e0) | _ => CAbr (AThrow e) end.
 
 Definition mstep (c : config) : mout :=
   let '(ctl, r, K) := c in
@@ -958,7 +997,9 @@ Definition mstep (c : config) : mout :=
       | ETpl a b => OTau (CE a, r, FBinL BTpl b :: K)
       | EYield a => OTau (CE a, r, FYieldE :: K)
       | EAwaitBad z => OEmit (VArr [VInt 61; VInt z]) (CAbr (AThrow (VInt z)), r, K)
-      | EYieldStar _ => OFinThrew VTypeErr r
+      | EYieldStar SrcBad => OTau (CAbr (AThrow VTypeErr), r, K)
+      | EYieldStar (SrcGen arg gbody) => OTau (CE arg, r, FArgStar true gbody :: K)
+      | EYieldStar (SrcHand _) => OStuck
       end
   | CS s =>
       match s with
@@ -979,12 +1020,49 @@ Definition mstep (c : config) : mout :=
       | SBreak => OTau (CAbr ABreak, r, K)
       | SContinue => OTau (CAbr AContinue, r, K)
       | SReenter c => OReent c (fun a => (CEmitThen (enc_callres a), r, K))
-      | SYieldStar _ | SForOf _ _ _ => OFinThrew VTypeErr r
+      | SYieldStar SrcBad => OTau (CAbr (AThrow VTypeErr), r, K)
+      | SYieldStar (SrcGen arg gbody) => OTau (CE arg, r, FArgStar false gbody :: FExprStmt :: K)
+      | SYieldStar (SrcHand _) => OStuck
+      | SForOf x SrcBad body => OTau (CAbr (AThrow VTypeErr), r, K)
+      | SForOf x (SrcGen arg gbody) body => OTau (CE arg, r, FArgForOf x gbody body :: K)
+      | SForOf x (SrcHand _) body => OStuck
       end
   | CEmitThen ev => OEmit ev (CNorm, r, K)
+  | CResume rk i =>
+      match rk with
+      | RPlain w =>
+          match i with
+          | BStart => OTau ((if w then CVal VUndef else CNorm), r, K)
+          | BNext x => OTau ((if w then CVal x else CNorm), r, K)
+          | BThrow x | BIterFail x => OTau (CAbr (AThrow x), r, K)
+          | BReturn x => OTau (CAbr (AReturn x), r, K)
+          end
+      | RStar =>     (* 14.4.14: forward the completion to the delegate *)
+          match K with
+          | FStarS wants rk' ri Ki :: K' =>
+              match i with
+              | BStart => OTau (CResume rk' (BNext VUndef), ri, Ki ++ FStarB false wants r :: K')
+              | BNext x => OTau (CResume rk' (BNext x), ri, Ki ++ FStarB false wants r :: K')
+              | BThrow x | BIterFail x => OTau (CResume rk' (BThrow x), ri, Ki ++ FStarB false wants r :: K')
+              | BReturn x => OTau (CResume rk' (BReturn x), ri, Ki ++ FStarB true wants r :: K')
+              end
+          | _ => OStuck
+          end
+      end
+  | CYielding v w rk =>
+      match split_b K with
+      | None => OYield v w rk r K                              (* the top-level generator: to the driver *)
+      | Some (Ki, B, K') =>                                    (* an inner generator: cut its segment Ki off *)
+          match B with
+          | FForOfB x body ro => OTau (CS body, upd x v ro, FForOfS x body rk r Ki :: K')
+          | FCloseB a ro => OTau (close_ok a, ro, K')          (* return() answered {done:false}: an object; ignored *)
+          | FStarB _ wants ro => OTau (CYielding v wants RStar, ro, FStarS wants rk r Ki :: K')
+          | _ => OStuck
+          end
+      end
   | CVal v =>
       match K with
-      | [] => OFinDone v r
+      | [] => OStuck
       | f :: K' =>
           match f with
           | FBinL o b => OTau (CE b, r, FBinR o v :: K')
@@ -993,15 +1071,17 @@ Definition mstep (c : config) : mout :=
               | (Some ev, res) => OEmit ev (CVal res, r, K')
               | (None, res) => OTau (CVal res, r, K')
               end
-          | FYieldE => OYield v true r K'
-          | FYieldS => OYield v false r K'
+          | FYieldE => OTau (CYielding v true (RPlain true), r, K')
+          | FYieldS => OTau (CYielding v false (RPlain false), r, K')
           | FExprStmt => OTau (CNorm, r, K')
           | FAssign x => OTau (CNorm, upd x v r, K')
           | FLog => OEmit v (CNorm, r, K')
           | FIf a b => OTau (CS (if truthy v then a else b), r, K')
           | FRet => OTau (CAbr (AReturn v), r, K')
           | FThrow => OTau (CAbr (AThrow v), r, K')
-          | _ => OFinThrew VTypeErr r
+          | FArgForOf x gbody body => OTau (CS gbody, upd 0 v env0, FForOfB x body r :: K')
+          | FArgStar wants gbody => OTau (CS gbody, upd 0 v env0, FStarB false wants r :: K')
+          | _ => OStuck
           end
       end
   | CNorm =>
@@ -1019,7 +1099,13 @@ Definition mstep (c : config) : mout :=
           | FFinally f' => OTau (CS f', r, FFinCompl None :: K')
           | FFinCompl None => OTau (CNorm, r, K')
           | FFinCompl (Some a) => OTau (CAbr a, r, K')
-          | _ => OFinThrew VTypeErr r
+          (* the inner generator fell off its end: {value: undefined, done: true} *)
+          | FForOfB _ _ ro => OTau (CNorm, ro, K')
+          | FCloseB a ro => OTau (close_ok a, ro, K')
+          | FStarB retmode _ ro => OTau ((if retmode then CAbr (AReturn VUndef) else CVal VUndef), ro, K')
+          (* the loop body completed: next() on the suspended inner generator *)
+          | FForOfS x body rk ri Ki => OTau (CResume rk (BNext VUndef), ri, Ki ++ FForOfB x body r :: K')
+          | _ => OStuck
           end
       end
   | CAbr a =>
@@ -1031,36 +1117,56 @@ Definition mstep (c : config) : mout :=
           | _ => OFinDone VUndef r
           end
       | f :: K' =>
-          match f, a with
-          | FCatch c, AThrow e => OTau (CS c, upd 3 e r, K')
-          | FFinally f', _ => OTau (CS f', r, FFinCompl (Some a) :: K')
-          | FLoop _ _ _ _, ABreak => OTau (CNorm, r, K')
-          | FLoop n m x body, AContinue => OTau (CNorm, r, FLoop n m x body :: K')
-          | _, _ => OTau (CAbr a, r, K')
+          match f with
+          | FCatch c => match a with AThrow e => OTau (CS c, upd 3 e r, K') | _ => OTau (CAbr a, r, K') end
+          | FFinally f' => OTau (CS f', r, FFinCompl (Some a) :: K')
+          | FLoop n m x body =>
+              match a with
+              | ABreak => OTau (CNorm, r, K')
+              | AContinue => OTau (CNorm, r, FLoop n m x body :: K')
+              | _ => OTau (CAbr a, r, K')
+              end
+          (* the inner generator completed abruptly: threw, or returned a value *)
+          | FForOfB _ _ ro => match a with AThrow e => OTau (CAbr (AThrow e), ro, K') | _ => OTau (CNorm, ro, K') end
+          | FCloseB a0 ro => match a with AThrow e => OTau (close_err a0 e, ro, K') | _ => OTau (close_ok a0, ro, K') end
+          | FStarB retmode _ ro =>
+              match a with
+              | AThrow e => OTau (CAbr (AThrow e), ro, K')
+              | AReturn v => OTau ((if retmode then CAbr (AReturn v) else CVal v), ro, K')
+              | _ => OTau ((if retmode then CAbr (AReturn VUndef) else CVal VUndef), ro, K')
+              end
+          (* the loop body completed abruptly: continue = next(); otherwise IteratorClose *)
+          | FForOfS x body rk ri Ki =>
+              match a with
+              | AContinue => OTau (CResume rk (BNext VUndef), ri, Ki ++ FForOfB x body r :: K')
+              | _ => OTau (CResume rk (BReturn VUndef), ri, Ki ++ FCloseB a r :: K')
+              end
+          | FStarS _ _ _ _ => OStuck
+          | _ => OTau (CAbr a, r, K')
           end
       end
   end.
 
-(* resuming suspended data (r, K) *)
-Definition resume_cfg (w : bool) (r : env) (K : list frame) (i : tin) : config :=
-  match i with
-  | BStart => ((if w then CVal VUndef else CNorm), r, K)
-  | BNext x => ((if w then CVal x else CNorm), r, K)
-  | BThrow x | BIterFail x => (CAbr (AThrow x), r, K)
-  | BReturn x => (CAbr (AReturn x), r, K)
-  end.
+(* resuming suspended data (rk, r, K) with input i *)
+Definition resume_cfg (rk : rkind) (r : env) (K : list frame) (i : tin) : config := (CResume rk i, r, K).
 
 Definition mload (s : stmt) : config := (CS s, env0, []).
 
-(* the core: no for-of, no yield* *)
+(* the fragment covered by the machine: everything except hand-written iterators as for-of / yield* operands *)
 Fixpoint coreE (e : exp) : bool :=
   match e with
   | EConst _ | EVar _ | EAwaitBad _ => true
   | EAdd a b | ECall a b | ECallSpread a b | EArr a b | EObj a b | ETpl a b => coreE a && coreE b
   | EYield a => coreE a
-  | EYieldStar _ => false
-  end.
-Fixpoint coreS (s : stmt) : bool :=
+  | EYieldStar s => coreSrc s
+  end
+with coreSrc (s : src) : bool :=
+  match s with
+  | SrcGen arg body => coreE arg && coreS body
+  | SrcHand _ => false
+  | SrcBad => true
+  end
+with coreS (s : stmt) : bool :=
   match s with
   | SSkip | SLogLocals | SBreak | SContinue | SReenter _ => true
   | SExpr e | SYield e | SAssign _ e | SDestr _ e | SLog e | SReturn e | SThrow e => coreE e
@@ -1068,12 +1174,13 @@ Fixpoint coreS (s : stmt) : bool :=
   | SIf c a b => coreE c && coreS a && coreS b
   | SRepeat _ _ b => coreS b
   | STryCF a b c => coreS a && coreS b && coreS c
-  | SYieldStar _ | SForOf _ _ _ => false
+  | SYieldStar s' => coreSrc s'
+  | SForOf _ s' b => coreSrc s' && coreS b
   end.
 
 (* driving: one activation up to the next suspension / completion; a call of the body on its own generator is
    answered with a TypeError (the generator is executing) *)
-Inductive mleaf := MLYield (v : val) (w : bool) (r : env) (K : list frame) | MLDone (v : val) (r : env) | MLThrew (e : val) (r : env).
+Inductive mleaf := MLYield (v : val) (w : bool) (rk : rkind) (r : env) (K : list frame) | MLDone (v : val) (r : env) | MLThrew (e : val) (r : env).
 Fixpoint mrun (fuel : nat) (c : config) : option (list val * mleaf) :=
   match fuel with
   | O => None
@@ -1081,10 +1188,11 @@ Fixpoint mrun (fuel : nat) (c : config) : option (list val * mleaf) :=
       match mstep c with
       | OTau c' => mrun fuel' c'
       | OEmit ev c' => match mrun fuel' c' with Some (l, lf) => Some (ev :: l, lf) | None => None end
-      | OYield v w r K => Some ([], MLYield v w r K)
+      | OYield v w rk r K => Some ([], MLYield v w rk r K)
       | OReent _ k => mrun fuel' (k (CErr VTypeErr))
       | OFinDone v r => Some ([], MLDone v r)
       | OFinThrew e r => Some ([], MLThrew e r)
+      | OStuck => None
       end
   end.
 
@@ -1117,9 +1225,9 @@ Fixpoint mwalk (fuel : nat) (h : list tin) (c : config) : option (list wobs) :=
   | None => None
   | Some (l, MLDone v r) => Some [WDone l v r]
   | Some (l, MLThrew e r) => Some [WThrew l e r]
-  | Some (l, MLYield v w r K) =>
+  | Some (l, MLYield v w rk r K) =>
       match h with
       | [] => Some [WYield l v r]
-      | i :: h' => match mwalk fuel h' (resume_cfg w r K i) with Some os => Some (WYield l v r :: os) | None => None end
+      | i :: h' => match mwalk fuel h' (resume_cfg rk r K i) with Some os => Some (WYield l v r :: os) | None => None end
       end
   end.
